@@ -442,6 +442,7 @@ Record inv10 (st : state) : Prop := {
   v_mj : forall j, mjob st = Some j ->
            firstn (length (mj_snap j)) (skipn (mj_off j) (indexes st)) = mj_snap j /\
            (mj_phase j = AtDone ->
+              mj_merged j = [] \/    (* index.Merge failed *)
               exists u, mj_merged j = match mj_snap j with [] => [] | _ => [mkFile u (merge (mj_snap j))] end)
 }.
 
@@ -579,7 +580,16 @@ Proof.
   destruct I as [S I K J M].
   constructor; simpl; auto.
   intros j E. inversion E; subst; simpl. destruct (M _ Hj) as [M1 _]. simpl in M1.
-  split; [exact M1|]. intros _. exists (next_uid st). destruct snap; reflexivity.
+  split; [exact M1|]. intros _. right. exists (next_uid st). destruct snap; reflexivity.
+Qed.
+
+Lemma v_step_mergefail : forall st, inv10 st -> inv10 (stepm st AMergeFail).
+Proof.
+  intros st I. simpl. destruct (mjob st) as [[off snap [|] mg]|] eqn:Hj; try exact I.
+  destruct I as [S I K J M].
+  constructor; simpl; auto.
+  intros j E. inversion E; subst; simpl. destruct (M _ Hj) as [M1 _]. simpl in M1.
+  split; [exact M1|]. intros _. left. reflexivity.
 Qed.
 
 Lemma v_step_start_import : forall st, inv10 st -> inv10 (stepm st (AStart KImport)).
@@ -615,11 +625,12 @@ Lemma v_step_complete_merge : forall st, inv10 st -> inv10 (stepm st (AComplete 
 Proof.
   intros st I. simpl. destruct (mjob st) as [[off snap [|] mg]|] eqn:Hj; try exact I.
   apply inv10_set_used_disk.
-  destruct (v_mj _ I _ Hj) as [M1 M2]. simpl in M1, M2. destruct (M2 eq_refl) as [u Mg]. clear M2.
+  destruct (v_mj _ I _ Hj) as [M1 M2]. simpl in M1, M2.
   destruct mg as [|m0 mg'].
   - apply inv10_start_merge; [|reflexivity]. destruct I as [S I K J M].
     constructor; simpl; auto. intros j E. discriminate.
-  - destruct snap as [|s0 snap']; [discriminate|].
+  - destruct (M2 eq_refl) as [Mg|[u Mg]]; [discriminate|]. clear M2.
+    destruct snap as [|s0 snap']; [discriminate|].
     set (snap := s0 :: snap') in *. inversion Mg; subst m0 mg'. clear Mg.
     apply inv10_start_merge; [|reflexivity].
     set (pre := firstn off (indexes st)). set (post := skipn (off + length snap) (indexes st)).
@@ -764,7 +775,7 @@ Qed.
 
 Theorem step_inv10 : forall st a, inv13 junk st -> inv10 st -> inv10 (stepm st a).
 Proof.
-  intros st a I3 I. destruct a as [ks|v|v|v| |h|h| | | |n|b| |k|k].
+  intros st a I3 I. destruct a as [ks|v|v|v| |h|h| | | |n|b| | |k|k].
   - apply v_step_import; auto.
   - apply v_step_view; auto.
   - apply v_step_read; auto.
@@ -778,6 +789,7 @@ Proof.
   - apply v_step_env; simpl; auto.
   - apply v_step_env; simpl; auto.
   - apply v_step_env; simpl; auto.
+  - apply v_step_mergefail; auto.
   - destruct k; [apply v_step_start_import|apply v_step_start_merge|apply v_step_start_tag|apply v_step_start_conv]; auto.
   - destruct k; [apply v_step_complete_import|apply v_step_complete_merge|apply v_step_complete_tag|apply v_step_complete_conv]; auto.
 Qed.
@@ -820,7 +832,7 @@ Proof. intros n fs H f Hf. apply H. eapply in_skipn. eauto. Qed.
 
 Lemma step_files_ok : forall st a, inv10 st -> files_ok (indexes st) -> files_ok (indexes (stepm st a)).
 Proof.
-  intros st a I U. destruct a as [ks|v|v|v| |h|h| | | |n|b| |k|k]; simpl; auto.
+  intros st a I U. destruct a as [ks|v|v|v| |h|h| | | |n|b| | |k|k]; simpl; auto.
   - destruct ks; auto. destruct (ascending _ _); auto. destruct (_ =? _)%nat; auto.
   - destruct (view_of v (views st)); auto.
   - destruct (view_of v (views st)) as [[|]|]; auto. destruct rf; auto.
@@ -829,6 +841,7 @@ Proof.
   - rewrite indexes_start_converter, indexes_start_tagging. exact U.
   - rewrite indexes_start_converter. exact U.
   - rewrite indexes_start_merge, indexes_start_converter, indexes_start_tagging. exact U.
+  - destruct (mjob st) as [[off snap [|] mg]|]; auto.
   - destruct k.
     + destruct (ijob st) as [[caps nx snap [|] cr un np]|]; auto.
       destruct (from_pcap capdb bad (known st) caps snap) as [[es usednew] allk]. auto.
@@ -852,8 +865,9 @@ Proof.
       intros x y Hx Hy Exy. apply P2; auto; rewrite ents_of_app; apply in_or_app; right; unfold ents_of; simpl; rewrite app_nil_r; auto.
     + destruct (mjob st) as [[off snap [|] mg]|] eqn:Hj; auto.
       rewrite indexes_set_used_disk, indexes_start_merge.
-      destruct (v_mj _ I _ Hj) as [M1 M2]. simpl in M1, M2. destruct (M2 eq_refl) as [u Mg]. clear M2.
+      destruct (v_mj _ I _ Hj) as [M1 M2]. simpl in M1, M2.
       destruct mg as [|m0 mg']; [exact U|].
+      destruct (M2 eq_refl) as [Mg|[u Mg]]; [discriminate|]. clear M2.
       destruct snap as [|s0 snap']; [discriminate|].
       inversion Mg; subst m0 mg'. clear Mg. simpl indexes.
       intros f Hf. apply in_app_or in Hf. destruct Hf as [Hf|Hf]; [eapply files_ok_firstn; eauto|].
@@ -912,7 +926,7 @@ Qed.
 Lemma view_step_stable : forall st a v s, rf = false -> view_of v (views st) = Some s -> a <> ARelease v ->
   view_of v (views (stepm st a)) = Some s.
 Proof.
-  intros st a v s Hrf H Ha. destruct a as [ks|w|w|w| |h|h| | | |n|b| |k|k]; simpl; auto.
+  intros st a v s Hrf H Ha. destruct a as [ks|w|w|w| |h|h| | | |n|b| | |k|k]; simpl; auto.
   - destruct ks; auto. destruct (ascending _ _); auto. destruct (_ =? _)%nat; auto.
   - destruct (view_of w (views st)) eqn:E; auto. simpl. rewrite view_of_app, H. reflexivity.
   - destruct (view_of w (views st)) as [[|]|]; auto. rewrite Hrf. auto.
@@ -921,6 +935,7 @@ Proof.
   - rewrite views_start_converter, views_start_tagging. exact H.
   - rewrite views_start_converter. exact H.
   - rewrite views_start_merge, views_start_converter, views_start_tagging. exact H.
+  - destruct (mjob st) as [[off snap [|] mg]|]; auto.
   - destruct k.
     + destruct (ijob st) as [[caps nx snap [|] cr un np]|]; auto.
       destruct (from_pcap capdb bad (known st) caps snap) as [[es usednew] allk]. auto.
